@@ -160,3 +160,7 @@ func Old(f func() any) any { panic("verifspec: ghost function") }
 
 // AtEntry(e): inside a loop invariant: the value e had when the loop was first reached.
 func AtEntry(f func() any) any { panic("verifspec: ghost function") }
+
+// LastCASOld: the content an atomic pointer cell had immediately before the
+// last successful CompareAndSwap / Store of the code under contract.
+func LastCASOld() unsafe.Pointer { panic("verifspec: ghost function") }
